@@ -465,6 +465,7 @@ def run_case(case, r):
             continue  # hsv of a signed difference is outside the documented colour model
         thr = _ref_threshold(refs, opt, extras_p, base_p)
         fresh_digest = {}
+        fresh_out = {}
         for pi, (pname, probe) in enumerate(probes[:n_main]):
             want = _ref_pipeline(refs, order, _ref_diff(opt, probes_p[pi], base_p), thr)
             any_nonzero = any_nonzero or bool(np.any(want["out"] != 0))
@@ -540,6 +541,7 @@ def run_case(case, r):
                         r.check(_same(x, _ref_diff(opt, e, base_p), tol), cell("cleaning-filter", opt), "the filter is learnt from the differences of the extra baselines",
                                 diff=opt, got=x)
             fresh_digest[pi] = _res_digest(canon, res, rm)
+            fresh_out[pi] = np.array(res.img, copy=True)
             digests.append(fresh_digest[pi])
         else:
             # -- 2-call histories on ONE analysis object: an Eulerian circuit over the first n_hist
@@ -550,6 +552,22 @@ def run_case(case, r):
                     res = an(probes[pi][1])
                     r.check(_res_digest(canon, res, _phys(res)) == fresh_digest[pi], cell("history", opt),
                             "analysis(A); analysis(B) returns for B exactly what a fresh analysis returns", diff=opt, probe=probes[pi][0])
+                # one probe OBJECT used as a frame buffer: the next frame is loaded into the same Image
+                # (written in place, or its array replaced) between calls -- each call analyses the
+                # data the object holds NOW
+                import copy as _copy
+
+                buf = _copy.deepcopy(probes[1][1])
+                for step, pi in enumerate((1, 2, 1, 3, 2)):
+                    if pi >= n_main or pi not in fresh_out:
+                        continue
+                    if step % 2 == 0:
+                        buf.img[...] = probes[pi][1].img
+                    else:
+                        buf.img = np.array(probes[pi][1].img, copy=True)
+                    res = an(buf)
+                    r.check(_same(np.asarray(res.img), fresh_out[pi], 0.0), cell("history", opt),
+                            "a probe object whose data were replaced since the last call is analysed with its current data", diff=opt, frame=probes[pi][0], step=step, how="in place" if step % 2 == 0 else "array replaced", got=np.asarray(res.img), want=fresh_out[pi])
                 # complete +-impulse basis (thorough): on the used object, against the reference
                 for pi in range(n_main, len(probes)):
                     res = an(probes[pi][1])
